@@ -24,34 +24,34 @@ variable {K : Type} [Field K]
 def eulerProduct (a b c : Axis) (cs sn : Vec 3 K) : Mat 3 K :=
   ((a.rot (cs 0) (sn 0)).mul (b.rot (cs 1) (sn 1))).mul (c.rot (cs 2) (sn 2))
 
-theorem mul3_apply (A B : Mat 3 K) (i k : Fin 3) :
+theorem affineMul3_apply (A B : Mat 3 K) (i k : Fin 3) :
     A.mul B i k = A i 0 * B 0 k + A i 1 * B 1 k + A i 2 * B 2 k := by
   simp only [Mat.mul, sumFin_eq, Fin.sum_univ_three]
 
 theorem eulerXYZ_eq (cs sn : Vec 3 K) : eulerXYZ cs sn = eulerProduct .X .Y .Z cs sn := by
   funext i j
   fin_cases i <;> fin_cases j <;>
-    simp [eulerXYZ, eulerProduct, mul3_apply, Axis.rot, rotX, rotY, rotZ, mat3, vec3] <;> ring
+    simp [eulerXYZ, eulerProduct, affineMul3_apply, Axis.rot, rotX, rotY, rotZ, affMat3, affVec3] <;> ring
 
 theorem eulerZYX_eq (cs sn : Vec 3 K) : eulerZYX cs sn = eulerProduct .Z .Y .X cs sn := by
   funext i j
   fin_cases i <;> fin_cases j <;>
-    simp [eulerZYX, eulerProduct, mul3_apply, Axis.rot, rotX, rotY, rotZ, mat3, vec3] <;> ring
+    simp [eulerZYX, eulerProduct, affineMul3_apply, Axis.rot, rotX, rotY, rotZ, affMat3, affVec3] <;> ring
 
 theorem eulerZXY_eq (cs sn : Vec 3 K) : eulerZXY cs sn = eulerProduct .Z .X .Y cs sn := by
   funext i j
   fin_cases i <;> fin_cases j <;>
-    simp [eulerZXY, eulerProduct, mul3_apply, Axis.rot, rotX, rotY, rotZ, mat3, vec3] <;> ring
+    simp [eulerZXY, eulerProduct, affineMul3_apply, Axis.rot, rotX, rotY, rotZ, affMat3, affVec3] <;> ring
 
 theorem eulerXZX_eq (cs sn : Vec 3 K) : eulerXZX cs sn = eulerProduct .X .Z .X cs sn := by
   funext i j
   fin_cases i <;> fin_cases j <;>
-    simp [eulerXZX, eulerProduct, mul3_apply, Axis.rot, rotX, rotY, rotZ, mat3, vec3] <;> ring
+    simp [eulerXZX, eulerProduct, affineMul3_apply, Axis.rot, rotX, rotY, rotZ, affMat3, affVec3] <;> ring
 
 theorem eulerZXZ_eq (cs sn : Vec 3 K) : eulerZXZ cs sn = eulerProduct .Z .X .Z cs sn := by
   funext i j
   fin_cases i <;> fin_cases j <;>
-    simp [eulerZXZ, eulerProduct, mul3_apply, Axis.rot, rotX, rotY, rotZ, mat3, vec3] <;> ring
+    simp [eulerZXZ, eulerProduct, affineMul3_apply, Axis.rot, rotX, rotY, rotZ, affMat3, affVec3] <;> ring
 
 theorem elemRot_axis (a : Axis) (i : Nat) (h : i < 3) (cs sn : Vec 3 K) :
     elemRot a.char i cs sn = .ok (a.rot (cs ⟨i, h⟩) (sn ⟨i, h⟩)) := by
@@ -65,58 +65,43 @@ theorem eulerGenericLoop_eq (a b c : Axis) (cs sn : Vec 3 K) :
     bind, Except.bind, eulerProduct]
   rfl
 
-/-- is `a b c` one of the five orders with a hard-coded closed form? -/
-def isClosedForm (a b c : Axis) : Bool :=
-  orderName a b c = ['X', 'Y', 'Z'] || orderName a b c = ['Z', 'Y', 'X'] || orderName a b c = ['Z', 'X', 'Y']
-    || orderName a b c = ['X', 'Z', 'X'] || orderName a b c = ['Z', 'X', 'Z']
-
 /-- every branch of `euler_rotation_matrix` (five closed forms + fallback), all 27 triples. -/
-theorem eulerRotationMatrix3_eq (a b c : Axis) (lead : Nat) (hg : Bool) (cs sn : Vec 3 K)
-    (h : isClosedForm a b c = true ∨ (lead = 1 ∧ hg = false)) :
-    eulerRotationMatrix3 (orderName a b c) lead hg cs sn = .ok (eulerProduct a b c cs sn) := by
+theorem eulerRotationMatrix3_eq (a b c : Axis) (cs sn : Vec 3 K) :
+    eulerRotationMatrix3 (orderName a b c) cs sn = .ok (eulerProduct a b c cs sn) := by
   have hgen := eulerGenericLoop_eq a b c cs sn
   cases a <;> cases b <;> cases c <;>
-    simp [eulerRotationMatrix3, orderName, Axis.char, isClosedForm, eulerXYZ_eq, eulerZYX_eq, eulerZXY_eq,
-      eulerXZX_eq, eulerZXZ_eq] at h hgen ⊢ <;>
-    simp [h, hgen]
+    simp [eulerRotationMatrix3, orderName, Axis.char, eulerXYZ_eq, eulerZYX_eq, eulerZXY_eq,
+      eulerXZX_eq, eulerZXZ_eq] at hgen ⊢ <;>
+    simp [hgen]
 
-/-- whenever `euler_rotation_matrix` returns (any batch shape, either `homogeneous`), the result is
-    the product. -/
-theorem eulerRotationMatrix3_ok (a b c : Axis) (lead : Nat) (hg : Bool) (cs sn : Vec 3 K) (m : Mat 3 K)
-    (h : eulerRotationMatrix3 (orderName a b c) lead hg cs sn = .ok m) : m = eulerProduct a b c cs sn := by
-  by_cases hc : isClosedForm a b c = true
-  · rw [eulerRotationMatrix3_eq a b c lead hg cs sn (Or.inl hc)] at h
-    simpa using h.symm
-  · by_cases hl : lead = 1 ∧ hg = false
-    · rw [eulerRotationMatrix3_eq a b c lead hg cs sn (Or.inr hl)] at h
-      simpa using h.symm
-    · exfalso
-      cases a <;> cases b <;> cases c <;>
-        simp [eulerRotationMatrix3, orderName, Axis.char, isClosedForm, hl] at h hc
+theorem eulerRotationMatrix3_ok (a b c : Axis) (cs sn : Vec 3 K) (m : Mat 3 K)
+    (h : eulerRotationMatrix3 (orderName a b c) cs sn = .ok m) : m = eulerProduct a b c cs sn := by
+  rw [eulerRotationMatrix3_eq] at h
+  simpa using h.symm
 
 /-! ### proper rotations -/
 
-theorem rot_mul_transpose (a : Axis) (c s : K) (h : c * c + s * s = 1) :
+theorem affineRot_mul_transpose (a : Axis) (c s : K) (h : c * c + s * s = 1) :
     (a.rot c s).mul (a.rot c s).transpose = Mat.one := by
   funext i j
   cases a <;> fin_cases i <;> fin_cases j <;>
-    simp [mul3_apply, Mat.transpose, Mat.one, Axis.rot, rotX, rotY, rotZ, mat3, vec3] <;>
+    simp [affineMul3_apply, Mat.transpose, Mat.one, Axis.rot, rotX, rotY, rotZ, affMat3, affVec3] <;>
     first | ring1 | linear_combination h
 
-theorem rot_transpose_mul (a : Axis) (c s : K) (h : c * c + s * s = 1) :
+theorem affineRot_transpose_mul (a : Axis) (c s : K) (h : c * c + s * s = 1) :
     (a.rot c s).transpose.mul (a.rot c s) = Mat.one := by
   funext i j
   cases a <;> fin_cases i <;> fin_cases j <;>
-    simp [mul3_apply, Mat.transpose, Mat.one, Axis.rot, rotX, rotY, rotZ, mat3, vec3] <;>
+    simp [affineMul3_apply, Mat.transpose, Mat.one, Axis.rot, rotX, rotY, rotZ, affMat3, affVec3] <;>
     first | ring1 | linear_combination h
 
-theorem det3_eq (m : Mat 3 K) : det3 m = (toM m).det := by
-  rw [Matrix.det_fin_three]; simp only [det3, toM_apply]; ring
+theorem affineDet3_eq (m : Mat 3 K) : affineDet3 m = (toM m).det := by
+  rw [Matrix.det_fin_three]; simp only [affineDet3, toM_apply]; ring
 
-theorem rot_det (a : Axis) (c s : K) (h : c * c + s * s = 1) : det3 (a.rot c s) = 1 := by
-  cases a <;> simp [det3, Axis.rot, rotX, rotY, rotZ, mat3, vec3] <;> linear_combination h
+theorem affineRot_det (a : Axis) (c s : K) (h : c * c + s * s = 1) : affineDet3 (a.rot c s) = 1 := by
+  cases a <;> simp [affineDet3, Axis.rot, rotX, rotY, rotZ, affMat3, affVec3] <;> linear_combination h
 
-theorem mul_orth {A B : Mat 3 K} (hA : A.mul A.transpose = Mat.one) (hB : B.mul B.transpose = Mat.one) :
+theorem affineMul_orth {A B : Mat 3 K} (hA : A.mul A.transpose = Mat.one) (hB : B.mul B.transpose = Mat.one) :
     (A.mul B).mul (A.mul B).transpose = Mat.one := by
   have hA' : toM A * (toM A)ᵀ = 1 := by rw [← transpose_eq, ← mmul_eq, hA, one_eq]
   have hB' : toM B * (toM B)ᵀ = 1 := by rw [← transpose_eq, ← mmul_eq, hB, one_eq]
@@ -127,7 +112,7 @@ theorem mul_orth {A B : Mat 3 K} (hA : A.mul A.transpose = Mat.one) (hB : B.mul 
       _ = 1 := by rw [hB', Matrix.mul_one, hA']
   exact this
 
-theorem mul_orth' {A B : Mat 3 K} (hA : A.transpose.mul A = Mat.one) (hB : B.transpose.mul B = Mat.one) :
+theorem affineMul_orth' {A B : Mat 3 K} (hA : A.transpose.mul A = Mat.one) (hB : B.transpose.mul B = Mat.one) :
     (A.mul B).transpose.mul (A.mul B) = Mat.one := by
   have hA' : (toM A)ᵀ * toM A = 1 := by rw [← transpose_eq, ← mmul_eq, hA, one_eq]
   have hB' : (toM B)ᵀ * toM B = 1 := by rw [← transpose_eq, ← mmul_eq, hB, one_eq]
@@ -138,21 +123,21 @@ theorem mul_orth' {A B : Mat 3 K} (hA : A.transpose.mul A = Mat.one) (hB : B.tra
       _ = 1 := by rw [hA', Matrix.mul_one, hB']
   exact this
 
-theorem mul_det (A B : Mat 3 K) : det3 (A.mul B) = det3 A * det3 B := by
-  rw [det3_eq, det3_eq, det3_eq, mmul_eq, Matrix.det_mul]
+theorem affineMul_det (A B : Mat 3 K) : affineDet3 (A.mul B) = affineDet3 A * affineDet3 B := by
+  rw [affineDet3_eq, affineDet3_eq, affineDet3_eq, mmul_eq, Matrix.det_mul]
 
 theorem eulerProduct_orth (a b c : Axis) (cs sn : Vec 3 K) (h : ∀ i, cs i * cs i + sn i * sn i = 1) :
     (eulerProduct a b c cs sn).mul (eulerProduct a b c cs sn).transpose = Mat.one :=
-  mul_orth (mul_orth (rot_mul_transpose a _ _ (h 0)) (rot_mul_transpose b _ _ (h 1))) (rot_mul_transpose c _ _ (h 2))
+  affineMul_orth (affineMul_orth (affineRot_mul_transpose a _ _ (h 0)) (affineRot_mul_transpose b _ _ (h 1))) (affineRot_mul_transpose c _ _ (h 2))
 
 theorem eulerProduct_orth' (a b c : Axis) (cs sn : Vec 3 K) (h : ∀ i, cs i * cs i + sn i * sn i = 1) :
     (eulerProduct a b c cs sn).transpose.mul (eulerProduct a b c cs sn) = Mat.one :=
-  mul_orth' (mul_orth' (rot_transpose_mul a _ _ (h 0)) (rot_transpose_mul b _ _ (h 1))) (rot_transpose_mul c _ _ (h 2))
+  affineMul_orth' (affineMul_orth' (affineRot_transpose_mul a _ _ (h 0)) (affineRot_transpose_mul b _ _ (h 1))) (affineRot_transpose_mul c _ _ (h 2))
 
 theorem eulerProduct_det (a b c : Axis) (cs sn : Vec 3 K) (h : ∀ i, cs i * cs i + sn i * sn i = 1) :
-    det3 (eulerProduct a b c cs sn) = 1 := by
+    affineDet3 (eulerProduct a b c cs sn) = 1 := by
   unfold eulerProduct
-  rw [mul_det, mul_det, rot_det a _ _ (h 0), rot_det b _ _ (h 1), rot_det c _ _ (h 2)]; ring
+  rw [affineMul_det, affineMul_det, affineRot_det a _ _ (h 0), affineRot_det b _ _ (h 1), affineRot_det c _ _ (h 2)]; ring
 
 /-! ### 2-D -/
 
@@ -160,10 +145,10 @@ theorem euler2_orth (c s : K) (h : c * c + s * s = 1) :
     (eulerRotationMatrix2 c s).mul (eulerRotationMatrix2 c s).transpose = Mat.one := by
   funext i j
   fin_cases i <;> fin_cases j <;>
-    simp [Mat.mul, sumFin_eq, Fin.sum_univ_two, Mat.transpose, Mat.one, eulerRotationMatrix2, mat2, vec2] <;>
+    simp [Mat.mul, sumFin_eq, Fin.sum_univ_two, Mat.transpose, Mat.one, eulerRotationMatrix2, affMat2, affVec2] <;>
     first | ring1 | linear_combination h
 
-theorem euler2_det (c s : K) (h : c * c + s * s = 1) : det2 (eulerRotationMatrix2 c s) = 1 := by
-  simp [det2, eulerRotationMatrix2, mat2, vec2]; linear_combination h
+theorem euler2_det (c s : K) (h : c * c + s * s = 1) : affineDet2 (eulerRotationMatrix2 c s) = 1 := by
+  simp [affineDet2, eulerRotationMatrix2, affMat2, affVec2]; linear_combination h
 
 end Deepali
